@@ -85,3 +85,22 @@ func Leave(n, at, steps int) *Scenario {
 	seed = append(seed, FairSeed(seq(n), steps, 5)...)
 	return &Scenario{Name: fmt.Sprintf("leave%dto%d", n, n-1), Cfg: sim.Config{N: n}, Seed: seed}
 }
+
+// TwoLeaves: n validators, the last two submit their leave requests in
+// consecutive steps (both requests end up in one block).
+func TwoLeaves(n, at, steps int) *Scenario {
+	seed := FairSeed(seq(n), at, 4)
+	seed = append(seed, Action{K: "L", A: n - 2}, Action{K: "L", A: n - 1})
+	seed = append(seed, FairSeed(seq(n), steps, 5)...)
+	return &Scenario{Name: fmt.Sprintf("twoleaves%d", n), Cfg: sim.Config{N: n}, Seed: seed}
+}
+
+// JoinLeave: key n asks to join and validator n-1 asks to leave in
+// consecutive steps (both requests end up in one block).
+func JoinLeave(n, at, steps int) *Scenario {
+	seed := FairSeed(seq(n), at, 4)
+	// both requests go into the pool of validator n-1, hence into one event and one block (join first)
+	seed = append(seed, Action{K: "Start", A: n, B: n - 1}, Action{K: "J", A: n, B: n - 1}, Action{K: "L", A: n - 1})
+	seed = append(seed, FairSeed(seq(n+1), steps, 5)...)
+	return &Scenario{Name: fmt.Sprintf("joinleave%d", n), Cfg: sim.Config{N: n}, Seed: seed, Asked: map[int]int{n: n - 1}}
+}
